@@ -261,6 +261,13 @@ func (x *Exec) addMod(env *SpecEnv, m *ModSet, e Expr) {
 			sfail("bad modifies item %s(...)", id.Name)
 		}
 	case *EIdent:
+		if strings.HasPrefix(e.Name, "$") {
+			if m.ghosts == nil {
+				m.ghosts = map[string]bool{}
+			}
+			m.ghosts[e.Name] = true
+			return
+		}
 		switch e.Name {
 		case "sends":
 			m.whole["C|sendcount"] = true
@@ -342,6 +349,7 @@ func (x *Exec) applyContract(fr *Frame, st *State, fc *FuncContract, callee *ssa
 	}
 	old := st.clone()
 	env := x.contractEnv(st, nil, fc, callee, sig, args)
+	callid := x.fresh("callid", SInt)
 	for _, c := range fc.Requires {
 		g := x.safeEvalBool(env, c, key)
 		x.check(st, "pre", c.Tags, pos, key+": "+c.Text, g)
@@ -367,12 +375,24 @@ func (x *Exec) applyContract(fr *Frame, st *State, fc *FuncContract, callee *ssa
 	}
 	mods := x.buildModSet(env, fc.Modifies, fc.Flags["allocates"])
 	x.frameEpoch(st, mods)
+	for g := range mods.ghosts {
+		assigned := false
+		for _, c := range fc.Exits {
+			if c.LHS == nil && c.Name == g {
+				assigned = true // the exit clause defines the new value from the old one
+			}
+		}
+		if v, ok := st.ghost[g]; ok && !assigned {
+			st.ghost[g] = x.havocShape(g, v)
+		}
+	}
 	var rv Value
 	penv := x.contractEnv(st, old, fc, callee, sig, args)
 	if rt != nil {
 		rv = x.havocValue(st, "ret."+shortKey(key), rt)
 		penv.vars["result"] = SVal{rv, goT(rt)}
 	}
+	penv.vars["callid"] = SVal{VScalar{callid}, intT}
 	// ghost effects of trusted primitives
 	x.contractGhostEffects(st, penv, fc)
 	for _, c := range fc.Ensures {
@@ -550,7 +570,7 @@ func (x *Exec) execAppend(fr *Frame, st *State, cc *ssa.CallCommon, pos token.Po
 	rarr := x.define("apparr", Ite(fits, s.Arr, r))
 	roff := x.define("appoff", Ite(fits, s.Off, IntLit(0)))
 	ncap := x.fresh("appcap", SInt)
-	x.assume(And(Ge(ncap, n), Le(ncap, IntLitStr("1152921504606846976")), Implies(fits, Eq(ncap, s.Cap))))
+	x.assume(And(Ge(ncap, n), Implies(fits, Eq(ncap, s.Cap))))
 	for i, nm := range names {
 		srt := ArrSort(SInt, ArrSort(SInt, leaves[i].Sort))
 		E := x.heapGet(st, nm, srt)
